@@ -39,6 +39,8 @@ EXPECT = [
     ("MapSeq.Xml wrote malformed XML for an empty element", ["C04", "C18"]),
     ("x2j-wrapper ValuesFromKeyPath found nothing", ["C20"]),
     ("descends a list nested in a list", ["C10"]),
+    ("NewMapGob returned a partly decoded", ["C15"]),
+    ("NewMapJson returned a partly filled", ["C15"]),
     ("namespace prefix contains", ["C15"]),
 ]
 
